@@ -336,6 +336,7 @@ func c15RoundTrip(u *U, v cty.Value, ct *TS) {
 		u.Violation("json.marshal-fails", shape, fmt.Sprintf("Marshal of %s failed: %v", desc(), err))
 		return
 	}
+	checkRetained(u, "json.marshal", b, desc())
 	if !json.Valid(b) {
 		u.Violation("json.invalid-bytes", shape, fmt.Sprintf("Marshal of %s produced invalid JSON %q", desc(), b))
 		return
@@ -539,6 +540,7 @@ func c15Doc(u *U, doc string) {
 		u.Violation("json.remarshal-fails", shape, fmt.Sprintf("re-marshalling the value of %s failed: %v %s", doc, err, firstLineOf(pan)))
 		return
 	}
+	checkRetained(u, "json.marshal", b, "document "+doc)
 	t2, perr := parseJSONDoc(string(b))
 	if perr != nil || !jsonTreesEqual(tree, t2) {
 		u.Violation("json.remarshal-differs", shape, fmt.Sprintf("document %s re-marshals as %s", doc, b))
@@ -751,4 +753,24 @@ func codecKnownValues(t *TS, o ValOpts, top bool) []cty.Value {
 		out = append(out, cty.NullVal(ty))
 	}
 	return out
+}
+
+// retainedOutput keeps the byte slice a marshal call returned, with a private copy, until the
+// next marshal call of the same family has returned: the caller owns what an encoder returns,
+// so a later call must not change it (a pooled or reused scratch buffer would).
+type retainedOutput struct {
+	b    []byte
+	copy string
+	desc string
+}
+
+var retainedOutputs = map[string]*retainedOutput{}
+
+// checkRetained compares the previously retained output of this family with its copy, then
+// retains b.  Call it right after every successful marshal.
+func checkRetained(u *U, family string, b []byte, desc string) {
+	if r := retainedOutputs[family]; r != nil && string(r.b) != r.copy {
+		u.Violation(family+".output-overwritten", family, fmt.Sprintf("the bytes returned for %s were %q; after the next call (%s) the same slice holds %q", r.desc, r.copy, desc, string(r.b)))
+	}
+	retainedOutputs[family] = &retainedOutput{b: b, copy: string(b), desc: desc}
 }
